@@ -87,7 +87,7 @@ func GetBlocksInSegment(blkSize int) int {
 func NewBlocks(bs int, bts Buffer, fit bool) (*Blocks, error) {
 	// get absolute number of blocks in a segment
 	blksInSegm := GetBlocksInSegment(bs)
-	if bs < 0 {
+	if blksInSegm < 0 {
 		return nil, fmt.Errorf("incorrect block size=%d, should multiple on naturanl integer to get %d: %w ", bs, os.Getpagesize(), errors.ErrInvalid)
 	}
 
